@@ -3,6 +3,7 @@ package core
 import (
 	"bytes"
 	"context"
+	"fmt"
 	"hash/crc32"
 	"io"
 	"io/ioutil"
@@ -62,6 +63,11 @@ func (label *Label) UploadDescriptor(ctx context.Context, bundle *Bundle) (err e
 		return err
 	}
 	label.Descriptor.BundleID = bundle.BundleID
+	// the label name must be recoverable from the path it is stored at (e.g. no "/")
+	pth := model.GetArchivePathToLabel(bundle.RepoID, label.Descriptor.Name)
+	if apc, erp := model.GetArchivePathComponents(pth); erp != nil || apc.LabelName != label.Descriptor.Name || apc.Repo != bundle.RepoID {
+		return fmt.Errorf("invalid label name: %q", label.Descriptor.Name)
+	}
 	buffer, err := yaml.Marshal(label.Descriptor)
 	if err != nil {
 		return err
